@@ -13,7 +13,12 @@
 (*       signed by somebody else, shreds with altered payload, shreds of   *)
 (*       the Byzantine leader's twin slice with the flipped last-flag,     *)
 (*     - timers (all pending timeouts expire),                             *)
-(*     - a second repair_block(B) call (MaxAgain).                         *)
+(*     - a second repair_block(B) call (MaxAgain),                         *)
+(*     - every content of the slot's dissemination spot in Dissems (first  *)
+(*       step `populate`): nothing, a shred of every slice of the other    *)
+(*       block O of the equivocating leader, a shred of every slice of B.  *)
+(*       No later step reads it: the requester's behaviour and             *)
+(*       GoodPeerEventuallyCompletes are the same for all of them.         *)
 (*     With Budgets = TRUE hostile responses and timer rounds are counted  *)
 (*     (MaxHostile, MaxTimeouts): the model is a finite DAG and TLC's      *)
 (*     deadlock check decides GoodPeerEventuallyCompletes: `Done` is the   *)
@@ -35,14 +40,16 @@
 (***************************************************************************)
 EXTENDS Repair, Json, TLCExt
 
-CONSTANTS Budgets, MaxHostile, MaxTimeouts, MaxAgain, ScenLen
+CONSTANTS Budgets, MaxHostile, MaxTimeouts, MaxAgain, ScenLen,
+          Dissems     \* contents of the slot's dissemination spot to start from (subset of DissemKinds)
 
-VARIABLES st, started, again, hb, tb, act, exp, sid, c
+VARIABLES st, started, again, hb, tb, act, exp, sid, c,
+          dissem      \* what the dissemination spot of the slot holds ("unset" before the first step)
 
-vars == <<st, started, again, hb, tb, act, exp, sid, c>>
-View == <<st, started, again, hb, tb>>
+vars == <<st, started, again, hb, tb, act, exp, sid, c, dissem>>
+View == <<st, started, again, hb, tb, dissem>>
 
-Sid(s, b, a, h, t) == <<TLCFP(<<s, b, a, h, t>>), TLCFP(<<t, h, a, b, s, "x">>)>>
+Sid(s, b, a, h, t, d) == <<TLCFP(<<s, b, a, h, t, d>>), TLCFP(<<d, t, h, a, b, s, "x">>)>>
 
 ---------------------------------------------------------------------------
 (* Hostile responses.  Each is <<kind, response>>; kinds are labels only,  *)
@@ -111,21 +118,34 @@ Step(a, res, ans, started2, again2, hb2, tb2) ==
   /\ started' = started2 /\ again' = again2 /\ hb' = hb2 /\ tb' = tb2
   /\ act' = a
   /\ exp' = Exp(res, ans)
-  /\ sid' = Sid(res.st, started2, again2, hb2, tb2)
-  /\ UNCHANGED c
+  /\ sid' = Sid(res.st, started2, again2, hb2, tb2, dissem)
+  /\ UNCHANGED <<c, dissem>>
 
 Init ==
   /\ st = InitReq /\ started = FALSE /\ again = 0 /\ hb = 0 /\ tb = 0
   /\ act = [op |-> "init"]
   /\ exp = Exp(Res(InitReq, {}, <<>>), NoAns)
-  /\ sid = Sid(st, started, again, hb, tb)
+  /\ dissem = "unset"
+  /\ sid = Sid(st, started, again, hb, tb, dissem)
   /\ c = 0
 
 MissKinds == {"valid", "nack", "other", "root", "twin"}
 Goal == st.bs.done = "B"
 Count(x) == IF Budgets THEN x + 1 ELSE x
 
-Next ==
+\* first step: the dissemination spot of the slot is whatever Rotor left there; the requester's
+\* steps below never read or write `dissem` -- its behaviour does not depend on it
+Populate ==
+  /\ dissem = "unset"
+  /\ \E d \in Dissems :
+       /\ dissem' = d
+       /\ act' = [op |-> "populate", dissem |-> d]
+       /\ exp' = Exp(Res(st, {}, <<>>), NoAns)
+       /\ sid' = Sid(st, started, again, hb, tb, d)
+       /\ UNCHANGED <<st, started, again, hb, tb, c>>
+
+Work ==
+  /\ dissem # "unset"
   /\ ~st.panic                                   \* a panic kills the repair task
   /\ \/ /\ ~started
         /\ Step([op |-> "start"], StartRepair(st, "B"), NoAns, TRUE, again, hb, tb)
@@ -147,7 +167,9 @@ Next ==
      \/ /\ started /\ (~Budgets \/ (tb < MaxTimeouts /\ st.out # {}))
         /\ Step([op |-> "timeout"], TimeoutAll(st), NoAns, started, again, hb, Count(tb))
      \/ /\ Goal /\ st.out = {}
-        /\ act' = [op |-> "done"] /\ UNCHANGED <<st, started, again, hb, tb, exp, sid, c>>
+        /\ act' = [op |-> "done"] /\ UNCHANGED <<st, started, again, hb, tb, exp, sid, c, dissem>>
+
+Next == Populate \/ Work
 
 ---------------------------------------------------------------------------
 IsDone == act'.op = "done" /\ st' = st
@@ -158,6 +180,8 @@ Obs(s) ==
    sh |-> [i \in 1..NS |-> s.bs.sh[i - 1]],
    marker |-> s.bs.marker,
    done |-> s.bs.done,
+   \* the dissemination spot's commitment cache is what Rotor left there: repair never writes to it
+   dcache |-> [i \in 1..NS |-> DissemCache(dissem, i - 1) # <<>>],
    other |-> FALSE]                  \* nothing is proven or filed under an identifier never asked for
 EmitState == PrintT(<<"STATE", ToJson([id |-> sid, init |-> (TLCGet("level") = 1), obs |-> Obs(st)])>>)
 
@@ -188,6 +212,17 @@ InvalidChangesNothing ==
   [][(act'.op = "hostile" /\ act'.hit /\ act'.kind \notin {"valid", "nack"})
        => (st' = st /\ exp'.wire = {} /\ exp'.ev = <<>>)]_vars
 
+\* repair never touches the slot's dissemination spot
+DissemNeverWritten == [][dissem # "unset" => dissem' = dissem]_vars
+\* handing the dissemination spot's commitment cache to the shred validation would break the
+\* property: with a shred of O there, the correct shreds of B are refused; with a shred of B there,
+\* a shred nobody signed is accepted (see Repair!WithDissemCache)
+CacheWouldRefuseGood ==
+  \A i \in SliceIdx : ~WithDissemCache(GoodShg(i, 0), DissemCache("other", i))
+CacheWouldAcceptUnsigned ==
+  \A i \in SliceIdx : WithDissemCache(Shg("B", i, 0, FlagOf(i), "other", FALSE), DissemCache("same", i))
+ASSUME CacheWouldRefuseGood /\ CacheWouldAcceptUnsigned
+
 \* reachability witnesses (each must be violated)
 W_Stored == ~Goal
 W_StoredAfterHostileHit == ~(Goal /\ hb > 0)
@@ -207,7 +242,7 @@ RAnswer(x) == IF x.sender = "stranger" THEN [v |-> "none"] ELSE Answer(x.hold, x
 InitR ==
   /\ c \in RCases
   /\ st = InitReq /\ started = FALSE /\ again = 0 /\ hb = 0 /\ tb = 0
-  /\ act = [op |-> "rcase"] /\ exp = 0 /\ sid = <<0, 0>>
+  /\ act = [op |-> "rcase"] /\ exp = 0 /\ sid = <<0, 0>> /\ dissem = "unset"
 NextR == UNCHANGED vars
 
 \* every positive answer verifies against the block hash
@@ -242,6 +277,7 @@ Final(script) == Drain(StartRepair(InitReq, "B").st, script, 400)
 
 InitS ==
   /\ c \in Scripts
+  /\ dissem \in Dissems
   /\ st = InitReq /\ started = FALSE /\ again = 0 /\ hb = 0 /\ tb = 0
   /\ act = [op |-> "scen"] /\ exp = 0 /\ sid = <<0, 0>>
 
@@ -250,6 +286,6 @@ ScenarioCompletes ==
   LET f == Final(c) IN f.bs.done = "B" /\ f.ann = <<"B">> /\ ~f.panic /\ f.out = {}
 EmitScen ==
   LET f == Final(c)
-  IN PrintT(<<"SCEN", ToJson([script |-> [k \in 1..Len(c) |-> [kind |-> c[k][1], rp |-> c[k][2]]],
+  IN PrintT(<<"SCEN", ToJson([dissem |-> dissem, script |-> [k \in 1..Len(c) |-> [kind |-> c[k][1], rp |-> c[k][2]]],
                                exp |-> [done |-> f.bs.done, ann |-> f.ann, panic |-> f.panic]])>>)
 =============================================================================
